@@ -525,15 +525,26 @@ func (e *Env) Observe(db *sod.DB, queries []Query) Obs {
 		}
 		obs["assignall"] = e.linesOf(objs)
 	}
+	// receivers are reused the way applications do: the object handed to Get / GetByUUID was
+	// used for another uuid before (and still carries that one's data)
+	prevID := ""
 	lookup := func(id, suffix string) {
-		d := &Doc{}
+		d := &Doc{S: "receiver"}
+		if prevID != "" {
+			d.Initialize(prevID)
+		}
 		d.Initialize(id)
 		if o, err := db.Get(d); err != nil {
 			obs["get"+suffix+":"+e.tag(id)] = errObs(err)
 		} else {
 			obs["get"+suffix+":"+e.tag(id)] = e.docLine(o)
 		}
-		if o, err := db.GetByUUID(&Doc{}, id); err != nil {
+		recv := &Doc{I64: 42}
+		if prevID != "" {
+			recv.Initialize(prevID)
+		}
+		prevID = id
+		if o, err := db.GetByUUID(recv, id); err != nil {
 			obs["getbyuuid"+suffix+":"+e.tag(id)] = errObs(err)
 		} else {
 			obs["getbyuuid"+suffix+":"+e.tag(id)] = e.docLine(o)
@@ -1087,6 +1098,15 @@ func (e *Env) Exec(i int, op *Op) bool {
 		if s.Err() != nil {
 			e.failf("%s: query %s failed: %v", what, op.Q, s.Err())
 		}
+		if len(set) > 1 && op.Ref%4 == 2 {
+			// a limit, or a One() consumed before, does not narrow what Delete removes
+			if op.Ref%8 == 2 {
+				s = s.Limit(1)
+			} else if _, err := s.One(); err != nil {
+				e.failf("%s: One() before Delete: %v", what, err)
+			}
+			e.flag("search-delete-after-limit-or-one")
+		}
 		if op.Ref%3 == 1 {
 			it, err := s.Iterator()
 			if err != nil {
@@ -1546,6 +1566,22 @@ func (e *Env) execBulk(what string, op *Op) {
 func (e *Env) execQuery(what string, q *Query) {
 	set, cls := e.m.Eval(*q)
 	s := e.runQuery(e.db, *q)
+	if n := len(q.Leaves); n > 1 && cls == OK {
+		// another chain ending on the same field is built (and dropped) while this one is still
+		// to be consumed: whatever the library keeps per field must not be shared between them
+		q2 := *q
+		q2.Leaves = append([]Leaf(nil), q.Leaves...)
+		last := q2.Leaves[n-1]
+		if last.Op == "!=" {
+			last.Op = "="
+		} else if last.Op != "~=" {
+			last.Op = "!="
+		}
+		q2.Leaves[n-1] = last
+		if other := e.runQuery(e.db, q2); other.Err() == nil {
+			other.Len()
+		}
+	}
 	if cls == EUnspec {
 		// a NaN probe: whatever the answer is, it is recorded (C12 compares it across storage
 		// configurations) and must be made of stored objects
@@ -1568,6 +1604,11 @@ func (e *Env) execQuery(what string, q *Query) {
 			objs, err := s.Collect()
 			if err == nil && len(objs) > 0 {
 				e.failf("%s: query %s cannot be evaluated (%s) but returned %d objects", what, q, cls, len(objs))
+			}
+			// a pattern that does not compile (as the field's case constraint rewrites it) is an
+			// error, not an empty result: "nothing matches" would be an answer to another question
+			if cls == ERegex && err == nil && len(e.m.objs) > 0 && len(q.Leaves) == 1 {
+				e.failf("%s: query %s uses a pattern that does not compile, but neither the search nor Collect reports an error", what, q)
 			}
 			e.tracef("%s %s -> no search error, collect: %d objects, %s", what, q, len(objs), classify(err))
 		} else {
@@ -2207,6 +2248,22 @@ func (e *Env) execSnapshot(what string, op *Op) {
 			e.failf("%s: outstanding search %s returned %s twice", what, q, e.tag(id))
 		}
 		seen[id] = true
+		// the search fixes WHICH objects it denotes; their contents are read when collected
+		if cur, live := e.m.objs[id]; live && canon(o) != canon(cur) {
+			e.failf("%s: outstanding search %s returned %s as %s; the stored value is %s (it was written after the search was evaluated)", what, q, e.tag(id), canon(o), canon(cur))
+		}
+	}
+	// collecting the same search value again gives the same answer in fresh memory
+	if len(D) == 0 && q.Consumer != "assign" {
+		again, err2 := s.Collect()
+		if err2 != nil || len(again) != len(objs) {
+			e.failf("%s: collecting the outstanding search %s a second time returned %d objects (err=%v), the first time %d", what, q, len(again), err2, len(objs))
+		}
+		for i := range again {
+			if again[i] == objs[i] {
+				e.failf("%s: collecting the outstanding search %s twice returned the very same object (pointer) for %s", what, q, e.tag(again[i].UUID()))
+			}
+		}
 	}
 	for id := range M {
 		if !D[id] && !seen[id] {
